@@ -112,7 +112,7 @@ class Scene:
                 if rng.random() < 0.5:
                     mapping = dtl.random_rec(rng, G, S, self.leafmap, high_p=rng.choice([0.2, 0.5, 0.9]))
                 else:
-                    maps = list(itertools.islice(dtl.all_recs(G, S, self.leafmap), 300))
+                    maps = dtl.some_recs(G, S, self.leafmap, 300, rng)
                     mapping = rng.choice(maps)
         self.m = mapping
         lm = {self.gnode[v]: self.snode[s] for v, s in self.leafmap.items()}
